@@ -19,6 +19,8 @@ ELEMS = {
     "pop": (CALL("POP"), "POP<'i>"),
     "drop": (CALL("DROP"), "DROP"),
     "push": (PUSH(S("a")), "Push<Str<Sa>>"),
+    # an element that touches the stack and then fails ("a" pushed, "b" missing): only the enclosing repetition / option restores
+    "pushb": (CALL("pb"), "(Push<Str<Sa>>, Str<Sb>)"),
 }
 
 
@@ -31,7 +33,7 @@ def cells(tier):
                 for mx in rng:
                     out.append(dict(kind="minmax", ek=ek, skip=skip, mn=mn, mx=mx))
                 out.append(dict(kind="min", ek=ek, skip=skip, mn=mn, mx=-1))
-    for ek in ("str", "alt", "pop"):
+    for ek in ("str", "alt", "pop", "pushb"):
         for n in range(0, 4):
             out.append(dict(kind="array", ek=ek, skip=0, mn=n, mx=n))
         out.append(dict(kind="atomicrepeat", ek=ek, skip=0, mn=0, mx=-1))
@@ -42,7 +44,7 @@ def cells(tier):
     if tier == "quick":
         keep = []
         for i, c in enumerate(out):
-            if c["kind"] != "minmax" or c["ek"] in ("str", "pop") or (c["mn"] + 2 * c["mx"] + c["skip"]) % 3 == 0:
+            if c["kind"] != "minmax" or c["ek"] in ("str", "pop", "pushb") or (c["mn"] + 2 * c["mx"] + c["skip"]) % 3 == 0:
                 keep.append(c)
         out = keep
     for i, c in enumerate(out):
@@ -75,7 +77,7 @@ def model_and_type(c):
 
 def build(tier):
     cs = cells(tier)
-    rules = [{"name": "WHITESPACE", "ty": "silent", "expr": S(" ")}]
+    rules = [{"name": "WHITESPACE", "ty": "silent", "expr": S(" ")}, {"name": "pb", "ty": "atomic", "expr": SEQ(PUSH(S("a")), S("b"))}]
     arms = []
     for c in cs:
         cell, ty, cnt = model_and_type(c)
@@ -92,7 +94,8 @@ def build(tier):
             cnt2 = "|n| { let _ = n; %s }" % cnt.replace("{n}", "n")
         c["stacky"] = stacky
         rules.append({"name": c["id"], "ty": "normal" if sk else "atomic", "expr": body})
-        arms.append('        "%s" => hcommon::observe_raw::<Rule, %s>(job, %s),' % (c["id"], full, cnt2))
+        c["nf"] = (not stacky) and c["mn"] == 0 and c["kind"] in ("min", "minmax", "atomicrepeat")
+        arms.append('        "%s" => hcommon::observe_raw%s::<Rule, %s>(job, %s),' % (c["id"], "_nf" if c["nf"] else "", full, cnt2))
     src = """#![allow(non_camel_case_types, dead_code, unused_imports, clippy::all)]
 use hcommon::Job;
 use pest_typed::choices::Choice2;
@@ -117,6 +120,7 @@ macro_rules! sw {
 }
 sw!(Sa, "a");
 sw!(Sbc, "bc");
+sw!(Sb, "b");
 sw!(Ssp, " ");
 sw!(Ssemi, ";");
 type Ws<'i> = AtomicRepeat<Str<Ssp>>;
